@@ -325,7 +325,8 @@ theorem C04_streamset_nil_arg (w : World) (p : Nat) :
 
 /-! ### every Stream transformer at once -/
 
-/-- For EVERY unary Stream transformer of the alphabet (`Map`, `Filter`, `Reject`, `FilterNotNil`, `Distinct`,
+/-- For EVERY unary Stream transformer of the alphabet (`Map`, `Filter`, `Reject`, `FilterNotNil` — on int, on
+    interface{} (untyped nil and typed nil pointers are absent) and on pointer elements (`notnilp`) —, `Distinct`,
     `Clone`, `Reverse`, `Sort`, `SortByIndex`, `RemoveItem`, `Append`, `Remove` — both families, i.e. including the
     interface{} in-place `Remove`), as dispatched by the driver (`execS1`): the returned handle holds
     `specS1` of the receiver's elements. -/
